@@ -21,7 +21,8 @@ CLAIMS = {
           "messdone removes info only after local, remote, todo were seen ENOENT and asks foop/N only afterwards; job_close unlinks a channel file only at EOF "
           "with nothing left; cleanup collects only mess files older than OSSIFIED with info and todo ENOENT; the cleaner unlinks exactly intd/N+mess/N or "
           "intd/N+todo/N; a second qmail-send exits 111 at lock/sendmutex before touching anything and the running one never closes the mutex descriptor; "
-          "injectbounce removes bounce/N only after the bounce message was accepted by the queue.",
+          "injectbounce removes bounce/N only after the bounce message was accepted by the queue."
+          " Restart and garbage collection read the queue through readsubdir.c: every numbered entry of every split directory is handed out exactly once, strays never (readsubdir_scan, pqstart_all).",
   "note": "claim is per transition (rely/guarantee style); that the invariant holds initially, that no fourth program writes the queue, kernel inode "
           "uniqueness and link() atomicity are assumed; interleavings are covered only through the per-step obligations; bounds as in C01/C03/C18.",
  },
@@ -31,7 +32,8 @@ CLAIMS = {
           "(K marks; D appends the bounce note THEN marks; Z nothing unless expired; garbled/out-of-range/unused nothing; lost spawner nothing); pass_dochan "
           "(one del_start per T record at its own offset, read errors never count as EOF); job_close (channel file unlinked iff EOF and numtodo==0, else "
           "re-queued); messdone (info removed only after local/remote/todo ENOENT and bounce injected; every failure re-schedules); pqadd (restart rebuilds "
-          "schedules); todo_do (one T record per envelope recipient in exactly one channel file, fsynced before todo is removed). Every system call may fail.",
+          "schedules); todo_do (one T record per envelope recipient in exactly one channel file, fsynced before todo is removed). Every system call may fail."
+          " Restart: pqstart() calls pqadd() exactly once per numbered info file (real readsubdir.c over a directory model); todo_do accepts only purely decimal names; fmtqfn names parse back to dir + id mod split + id.",
   "note": "callees cut to observing stubs and verified separately (listed in evidence.cuts); whole histories are covered only by induction over these "
           "steps from arbitrary valid states; liveness clauses are not decided; bounds: reports <= 5..8 bytes, envelope <= 6..8 bytes, 3 slots, 2 jobs.",
  },
@@ -40,7 +42,8 @@ CLAIMS = {
   "text": "Per-transition bounded model checking: pass_dochan never starts a delivery for a D record and takes the entry off the queue while its job is "
           "open; markdone writes exactly one 'D' at the recipient's own offset; del_start/del_dochan keep concurrencyused == slots in use <= concurrency from "
           "any valid state; nothing is started after TERM or without a free slot; start-up clamps concurrency to min(configured, spawner byte) (real main() "
-          "prologue).",
+          "prologue)."
+          " The command channel (comm_write/comm_do/comm_canwrite): for every sequence of hand-overs and write outcomes (short writes, EAGAIN, EPIPE) the spawner receives each delivery command exactly once and intact.",
   "note": "'delivered exactly once without crashes' follows on paper from these steps, it is not checked end to end; 3 slots, 2 jobs, reports <= 5..8 bytes.",
  },
  "C07": {
@@ -50,7 +53,8 @@ CLAIMS = {
           "(only safe characters from the five peer-controlled strings), smtp_data (250 iff queued; hops >= 100 -> 554, size -> 552, D -> 554, Z -> 451), blast's hop "
           "counter vs the stored message, and the WHOLE main() of qmail-qmqpd and qmail-qmtpd on every input of up to 10 bytes (12/13 thorough) plus templates "
           "with symbolic framing bytes around concrete fillers (addresses of 999/1000 bytes, recipient framing, sender, body) against a reference netstring parser; "
-          "a second package on the same QMTP connection after a warm-up package that dirtied every static buffer.",
+          "a second package on the same QMTP connection after a warm-up package that dirtied every static buffer."
+          " Disconnect or stall at any byte: timeoutread/timeoutwrite units and the daemons' saferead/safewrite never hand a non-positive count to the stream layer (exit without queuing).",
   "note": "fork/pipe/exec/wait stubbed (the queue program is represented by its C01 contract); hop counts 98..101 are not executed (counter proved equal to the "
           "reference count for counts 0..1, smtp_data proved for every symbolic count); exit-82 custom text assumed to start with D or Z as qmail-queue(8) documents; "
           "more than two packages per QMTP connection and write errors towards the client outside.",
@@ -60,7 +64,8 @@ CLAIMS = {
   "text": "Bounded model checking of the real SMTP handlers (helo/ehlo/rset/mail/rcpt/data) with addrparse, bmfcheck, addrallowed for every sequence of 3 commands "
           "(4 thorough) with arguments up to 5 bytes, RELAYCLIENT unset or set, rcpthosts absent or 2 entries, one badmailfrom entry, against a ghost transaction kept "
           "from the replies: submission only after MAIL + accepted RCPT + DATA with exactly that envelope, resets as stated, RCPT 250 iff policy; addrparse vs the "
-          "documented forms (<= 7 bytes + localiphost template; the 900-byte limit as a parametric copy with the constant scaled to 13); rcpthosts() vs a reference suffix matcher incl. the cdb list; commands() line handling; constmap lemma.",
+          "documented forms (<= 7 bytes + localiphost template; the 900-byte limit as a parametric copy with the constant scaled to 13); rcpthosts() vs a reference suffix matcher incl. the cdb list; commands() line handling; constmap lemma."
+          " The control FILES themselves: control_readfile/readline/readint against a reference reader of qmail-control(5); rcpthosts_init()+rcpthosts() over a symbolic rcpthosts file (an existing empty file still restricts); qmail-newmrh keys (lower-cased, once each, fsync/rename order); ipme_is.",
   "note": "rcpthosts/constmap cut to reference functions inside the sequence harness, their equivalence to the real code proved by the lemma obligations at small "
           "sizes; ipme_is stubbed; morercpthosts.cdb file format is C11's cdb reader.",
  },
@@ -68,7 +73,8 @@ CLAIMS = {
   "design_ref": "DESIGN.md 4 C10",
   "text": "Bounded model checking of qmail-send.c rewrite() against a model of qmail-send(8)/addresses(5) for every recipient of up to 6 bytes (9 thorough) with "
           "symbolic locals (<=2x3), virtualdomains (<=2 entries, keys <=4, tags <=2), percenthack, envnoathost; senderadd() VERP expansion; regetcontrols() over "
-          "two HUPs; todo_do() writes each recipient once, in order, to the channel rewrite() chose; lemma: real constmap_init+constmap == case-insensitive linear search.",
+          "two HUPs; todo_do() writes each recipient once, in order, to the channel rewrite() chose; lemma: real constmap_init+constmap == case-insensitive linear search."
+          " control_readfile/readline/readint (what the tables are built from) are decided against a reference reader.",
   "note": "constmap() cut under the lemma (proved for up to 3 entries x 3 bytes); control-file parsing and getcontrols() not reached; recorded judgements: an address whose "
           "percent-hack rewrite again ends in a percent-hack domain is not compared (documents silent), envnoathost without '@'.",
  },
@@ -87,7 +93,8 @@ CLAIMS = {
   "text": "Bounded model checking: addrparse(addrmangle(local@host)) == local@host for every local part of up to 6 bytes (12 thorough) with the real qmail-remote.c and "
           "qmail-smtpd.c in one query; quote2 -> token822_parse -> addrlist -> unquote round trip (local part <= 3 bytes); quote2 output vs an RFC 822 reference reader "
           "(<= 7 bytes, 12 thorough); 24 syntactic address-list forms (comments inside display names, routes, groups, quoted pairs) through token822_addrlist + rwgeneric give exactly the mailboxes known by construction, and their "
-          "unparse output re-read by the reference reader gives the same tokens; doheaderfield never keeps Bcc/Resent-Bcc/Return-Path.",
+          "unparse output re-read by the reference reader gives the same tokens; doheaderfield never keeps Bcc/Resent-Bcc/Return-Path."
+          " Grammar-derived obligations: addrlist_grammar (symbolic derivations of address-list syntax through the real token822_addrlist: exactly the address parts of the listed mailboxes reach the callback, each once) and addr_grammar (the real rwtocc on derived addresses: documented envelope form). Known finding: a comment as first/last token inside <...> defeats route stripping / plus-domain (recorded, assumed away by name).",
   "note": "weakest string bound of the suite: token822_parse on symbolic text closes only to 3-4 bytes, so the 'rewritten header parses again' clause is decided "
           "against an RFC 822 reference reader, not by a second real parse; -a/-h/-H/-f option handling and folding at LINELEN not reached.",
  },
@@ -99,7 +106,8 @@ CLAIMS = {
           "put/bput with any 64-bit length; netstring length parsers; dns.c record walkers from symbolic walker states; fmt/scan/date ranges; hfield, headerbody, "
           "commands, control, constmap, token822_parse, cdb_seek on corrupt files, spawner report routines; the guards whose constants lie outside every bound "
           "(REPORTMAX, qmtpd's 1000-byte recipient buffer with RELAYCLIENT) in parametric/template form; and the program-level surfaces in their owners' harnesses "
-          "with the same checks on (smtpd blast and addrparse, qmail-remote smtpcode, pop3d/popup, .qmail and envelope lines, Received, address-list forms).",
+          "with the same checks on (smtpd blast and addrparse, qmail-remote smtpcode, pop3d/popup, .qmail and envelope lines, Received, address-list forms)."
+          " New kernels: remoteinfo (ident reply parser), tcpto record file, dns_mxip sorting and ipalloc growth, ip_fmt/ip_scan, qmail-pw2u line parsing, control.c readers, regetcontrols (tables never point into overwritten buffers).",
   "note": "NOT a whole-suite claim: inputs longer than each kernel's bound (<= 3..12 bytes), 'thousands of tokens', deep nesting and true 2^31-byte lines are not "
           "executed - only the arithmetic that guards them is proved for all 32-bit values; use-after-free across long sessions and programs not listed are outside.",
  },
@@ -108,7 +116,8 @@ CLAIMS = {
   "text": "Bounded model checking of qmail-remote.c smtpcode() against a reference RFC 5321 reply reader on fully symbolic server streams (<=12 bytes quick), "
           "smtp() as a whole over per-phase symbolic reply codes / continuation lines / disconnects for 1..2 recipients (r/h/s per recipient in order, K/Z/D "
           "verdict, 'Possible duplicate' iff after the final dot), dropped()/quit(), and qmail-rspawn.c report() for every wait status and every output of "
-          "up to 8 bytes (K relayed only for exit 0, no crash, accepted recipient and a K record; no read beyond the output).",
+          "up to 8 bytes (K relayed only for exit 0, no crash, accepted recipient and a K record; no read beyond the output)."
+          " Stalls: timeoutread/timeoutwrite/timeoutconn units; qmail-remote's saferead/safewrite always end in dropped() on EOF, error or timeout; one dialogue phase may answer with a reply whose first byte is no digit (never an acceptance).",
   "note": "blast cut to a contract (C06); timeoutread/timeoutwrite stubbed; DNS/MX selection, TCP time-outs and tcpto outside; bounds in evidence.",
  },
  "C12": {
@@ -125,7 +134,8 @@ CLAIMS = {
   "design_ref": "DESIGN.md 4 C13",
   "text": "Bounded model checking of the real qmail-local.c main(): .qmail search order and path safety for every extension up to 5 bytes over 3 files with "
           "symbolic names/permissions and symbolic home mode; whole instruction loop against a reference dot-qmail(5) interpreter for every .qmail body of up "
-          "to 9 bytes (the loop check runs before any delivery or forward); mailprogram() for all 65536 wait statuses; bouncexf() for headers up to 8 bytes; mailforward(); Return-Path/Delivered-To newline safety.",
+          "to 9 bytes (the loop check runs before any delivery or forward); mailprogram() for all 65536 wait statuses; bouncexf() for headers up to 8 bytes; mailforward(); Return-Path/Delivered-To newline safety."
+          " The instruction-loop harness runs the real qmesearch(); the forward-only restriction is tied to the execute bit of the SELECTED control file whether the -owner probes use stat() or open().",
   "note": "what /bin/sh does is outside; quote2 over-approximated in the envelope-lines harness (C17 covers quote.c); NUL bytes in .qmail excluded; "
           "judgements (forwards before exit 99 honoured, '/' in ext only descends) recorded in harness comments.",
  },
@@ -149,7 +159,8 @@ CLAIMS = {
   "text": "Bounded model checking of the REAL qmail-send.c main() loop + todo_do + trigger.c against an environment automaton for 1..2 injectors advanced "
           "by a symbolic number of steps inside every daemon system call (= every interleaving at system-call granularity, K=5..6 loop iterations): whenever "
           "the daemon blocks, every published todo entry was seen by the scan or the trigger descriptor is readable (no lost wake-up); no busy rescanning "
-          "once injectors are quiet; select timeout 0 iff work is pending or due, otherwise positive and <= earliest-due - now + SLEEP_FUZZ.",
+          "once injectors are quiet; select timeout 0 iff work is pending or due, otherwise positive and <= earliest-due - now + SLEEP_FUZZ."
+          " A HUP may interrupt any select() of the lost-wake-up harness (real sighup()/reread()).",
   "note": "FIFO and directory-stream semantics are a model (stated in evidence.stubs); injector step order is what C01 proves about qmail-queue; clock "
           "stands still in the lost-wake-up query; other subsystems of main() cut; HASNAMEDPIPEBUG1 variant not compiled.",
  },
@@ -158,7 +169,8 @@ CLAIMS = {
   "text": "Bounded model checking of the whole real qmail-clean.c main() for every request stream on a grid of concrete lengths (one request of 1..10 "
           "bytes, two requests, unterminated tails; all byte values): exactly one status byte per request, unlink only for well-formed foop/N|todo/N requests "
           "and only on intd/N, mess/S/N, todo/N of that decimal number, malformed requests change nothing; qmail-send del_dochan on arbitrary report bytes "
-          "(shared with C03).",
+          "(shared with C03)."
+          " SIGCHLD must be blocked when docmd() forks a delivery and records its slot.",
   "note": "cleanuppid cut (touches pid/ only); digit strings that overflow unsigned long are beyond the length grid; spawn.c command parsing: see C20/C11 "
           "kernels where built.",
  },
@@ -167,7 +179,8 @@ CLAIMS = {
   "text": "Bounded model checking of the real qmail-smtpd.c blast()/put/straynewline against a reference RFC 5321 receiver for EVERY byte stream of up to "
           "14 bytes (20 thorough): bytes handed to the queue, bytes consumed, 451 iff a bare LF precedes the terminator; decode(ref_encode(m)) == m for "
           "every m <= 6..10 bytes; the REAL qmail-remote blast() composed with the REAL qmail-smtpd blast() for every message <= 5..7 bytes; commands() resumes "
-          "with exactly the bytes after the terminator.",
+          "with exactly the bytes after the terminator."
+          " The stall/disconnect wrappers (timeoutread/timeoutwrite units, saferead/safewrite of the daemons) are decided as units; the ideal streams offer substdio_feed/PEEK/SEEK with symbolic read boundaries, so an in-place decoder is exposed at every boundary position.",
   "note": "ideal byte streams (C20 layer-0 lemmas); qmail_* cut to observing stubs; recorded judgement: a line '.CR<non-LF>' may keep or lose its dot; "
           "streams longer than the bound, time-outs outside.",
  },
